@@ -7,6 +7,9 @@
  *   send.complete  write() accepts everything or fails (any errno but EFBIG), in any sequence: TRUE => all sent
  *   send.short     additionally short counts (fixed: bc0f5e7)
  *   send.fd        as send.short, plus descriptor accounting: the object keeps its descriptor or has released it
+ *   send.script    tier B, plain harness, independent of the loop contracts (robust against restructured retry code):
+ *                  scripted write() answers; if none is a hard failure the payload is delivered completely and in
+ *                  order, TRUE is returned and the descriptor kept; native replay with the script from the witness
  * The EFBIG branch (1 KiB chunks through a recursive call) is not covered by a unit: three bounded renderings
  * (symbolic payload <= 2100 bytes, recursion unwound) ran out of memory / time; its defect (every successfully
  * sent chunk string leaks) is shown natively only: findings/demos/C19_efbig_chunk_leak.c.
@@ -52,6 +55,80 @@ timeout: 200
 checks_off: --conversion-check
 funcs: spif_socket_send, spif_str_get_len
 */
+/*@unit
+name: send.script
+define: NET_KERNEL, NET_TAPE, VG_TAPE_N=64, NET_OWN_WRITE, U_SCRIPT
+src: socket.c
+tier: B
+bound: the first 5 write() answers are scripted over {complete, short, -1/EINTR, -1/EAGAIN, -1/EPIPE}, every later write() completes; payload 1..8 bytes; loops and the (unreached) EFBIG recursion unwound 7 with unwinding assertions
+unwind: 7
+backend: sat
+checks_off: --conversion-check
+native: self
+funcs: spif_socket_send, spif_str_get_len
+*/
+#ifdef U_SCRIPT
+#include "vprelude.h"
+#include "env_net.h"
+#include "socket.h"
+#ifdef VERIF_NATIVE
+# define spif_str_get_len vg_m_str_get_len
+# define spif_str_new_from_buff vg_m_new_from_buff
+# define spif_str_del vg_m_str_del
+#endif
+spif_stridx_t spif_str_get_len(spif_str_t self) { return self->len; }
+/* the EFBIG branch is not reachable with this script (errno is never EFBIG); its callees must not be reached */
+spif_str_t spif_str_new_from_buff(spif_charptr_t b, spif_stridx_t n) { __CPROVER_assert(0, "send.script: EFBIG branch not reached"); return NULL; }
+spif_bool_t spif_str_del(spif_str_t self) { __CPROVER_assert(0, "send.script: EFBIG branch not reached"); return TRUE; }
+/* scripted write(): answer i (i < 5) is w_script[i]: 0 complete, 1 short (one byte), 2 EINTR, 3 EAGAIN, 4 EPIPE */
+#define NSCRIPT 5
+int w_script[NSCRIPT];
+const char *w_base; size_t w_len;
+ssize_t write(int fd, const void *buf, size_t n)
+{
+    int a = (vg_wr_calls < NSCRIPT) ? w_script[vg_wr_calls] : 0;
+    vg_wr_calls++;
+    if (!((const char *) buf == w_base + vg_wr_total && vg_wr_total <= w_len && n <= w_len - vg_wr_total)) vg_wr_in_order = 0;
+    if (a == 2) { vg_errno = EINTR; return -1; }
+    if (a == 3) { vg_errno = EAGAIN; return -1; }
+    if (a == 4) { vg_errno = EPIPE; vg_wr_hard = 1; return -1; }
+    if (a == 1 && n > 1) { vg_wr_total += 1; return 1; }
+    vg_wr_total += n;
+    return (ssize_t) n;
+}
+#include "rawsrc/socket.c"
+
+void harness(void)
+{
+    spif_socket_t s = malloc(sizeof(spif_const_socket_t));
+    spif_str_t d = malloc(sizeof(spif_const_str_t));
+    spif_bool_t ok;
+    libast_debug_level = VND(uint, debug_level);
+    VG_TAPE_FILL();                                        /* select()'s answers */
+    w_script[0] = VND(int, script0); w_script[1] = VND(int, script1); w_script[2] = VND(int, script2);
+    w_script[3] = VND(int, script3); w_script[4] = VND(int, script4);
+    __CPROVER_assume(w_script[0] >= 0 && w_script[0] <= 4 && w_script[1] >= 0 && w_script[1] <= 4 && w_script[2] >= 0 && w_script[2] <= 4 &&
+                     w_script[3] >= 0 && w_script[3] <= 4 && w_script[4] >= 0 && w_script[4] <= 4);
+    vg_fd_open[0] = vg_fd_open[1] = vg_fd_open[2] = vg_fd_open[4] = vg_fd_open[5] = vg_fd_open[6] = vg_fd_open[7] = 0;
+    vg_fd_open[3] = 1;
+    s->fd = 3; s->flags = VND(uint, s_flags); s->addr = NULL; s->local_url = NULL; s->remote_url = NULL;
+    d->len = VND(long, len);
+    __CPROVER_assume(d->len >= 1 && d->len <= 8);
+    d->size = d->len + 1; d->s = malloc(9);
+    memset(d->s, 'x', 8); d->s[d->len] = 0;
+    w_base = d->s; w_len = (size_t) d->len;
+    vg_wr_calls = 0; vg_wr_total = 0; vg_wr_in_order = 1; vg_wr_hard = 0;
+
+    ok = spif_socket_send(s, d);
+
+    __CPROVER_assert(ok == TRUE || ok == FALSE, "send: boolean result");
+    __CPROVER_assert(ok != TRUE || (vg_wr_total == w_len && vg_wr_in_order), "send: TRUE => every byte accepted by write(), in order");
+    __CPROVER_assert(vg_wr_hard || ok == TRUE, "send: interruptions and would-block answers alone never make send fail");
+    __CPROVER_assert(vg_wr_hard || s->fd == 3, "send: the descriptor is kept unless a write failed for good");
+    __CPROVER_assert(s->fd == 3 || (s->fd == -1 && !vg_fd_open[3]), "send: the descriptor is kept, or released and forgotten");
+    VERIF_CANARY();
+}
+#else
 #include "vprelude.h"
 #include "env_net.h"
 /* facts about the write stub of the unit that the back-off loop's invariant may use (annot/socket.c.net.ann):
@@ -61,7 +138,6 @@ funcs: spif_socket_send, spif_str_get_len
 # else
 #  define VG_SEND_ERRNO_INV (num_written >= 0 || vg_errno != EFBIG)
 # endif
-size_t vg_iter;            /* iterations of the back-off loop (annot/socket.c.net.ann) */
 #include "socket.h"
 /* SPIF_DEFINE_PROPERTY_FUNC_C(str, spif_stridx_t, len), str.c:835, written out */
 spif_stridx_t spif_str_get_len(spif_str_t self) { return self->len; }
@@ -86,3 +162,5 @@ void harness(void)
     spif_socket_send(s, d);
     VERIF_CANARY();
 }
+
+#endif
